@@ -1,6 +1,7 @@
 import Holpy.Common.Sexp
 import Holpy.C19.Model
 import Holpy.C19.Parser
+import Holpy.C19.Linearity
 /-
 Line protocol for the C19 model (one s-expression in, one out).
 
@@ -12,6 +13,8 @@ Line protocol for the C19 model (one s-expression in, one out).
   (print EXPR)          -> (str ATOM) (tok ATOM ...)      printed string (percent-encoded), and whether
                                                           lexing it gives the printer's token list: T|F
   (parse ATOM)          -> (ok EXPR) | fail               parser model on a percent-encoded string
+  (lin EXPR)            -> EXPR                           Linearity().eval (fuel: 4 * size + 8)
+  (split C EXPR)        -> EXPR                           SplitRegion(C).eval, non-CPV branch
   (iadd I J) (isub I J) (ineg I) (imul I J) (iinv I) (idiv I J) (ipow I N) -> IVAL | raises
 -/
 open Holpy Holpy.C19
@@ -114,6 +117,14 @@ def handle (line : String) : String :=
     match parseStr (decAtom s) with
     | some e => toString (Sexp.list [.atom "ok", exprTo e])
     | none => "fail"
+  | some (.list [.atom "lin", e]) =>
+    match exprOf e with
+    | some e => toString (exprTo (linearityM (4 * size e + 8) e))
+    | none => "bad-op"
+  | some (.list [.atom "split", c, e]) =>
+    match exprOf c, exprOf e with
+    | some c, some e => toString (exprTo (splitM c e))
+    | _, _ => "bad-op"
   | some (.list [.atom "iadd", i, j]) =>
     match ivalOf i, ivalOf j with
     | some i, some j => toString (ivalTo (Ival.add i j))
